@@ -265,6 +265,7 @@ func Execute(rc *core.RunCtx, cfg Cfg) *Out {
 	base, cancel := context.WithCancel(context.Background())
 	defer cancel()
 	done := make(chan struct{})
+	var runaway atomic.Bool
 	var payloads []*Payload
 	var retained []*graphql.Response
 	var pmu sync.Mutex
@@ -315,8 +316,14 @@ func Execute(rc *core.RunCtx, cfg Cfg) *Out {
 				// intact while later ones are produced
 				pmu.Lock()
 				retained = append(retained, r)
+				n := len(retained)
 				pmu.Unlock()
 				if cfg.Single {
+					return
+				}
+				if n > 400 {
+					// no operation of the corpus has that many payloads: the sequence does not end
+					runaway.Store(true)
 					return
 				}
 			}
@@ -327,6 +334,13 @@ func Execute(rc *core.RunCtx, cfg Cfg) *Out {
 	if maxSteps == 0 {
 		maxSteps = 2000
 	}
+	defer func() {
+		if runaway.Load() && !out.Stuck {
+			out.Stuck = true
+			out.StuckSite = "endless-payload-sequence"
+			out.StuckDump = "the response function keeps returning payloads (more than 400)"
+		}
+	}()
 	finished := false
 	var lastRoot string
 	seenRoots := map[string]bool{}
